@@ -338,13 +338,15 @@ def comparison_creators(spec, dialect="duckdb"):
     return out
 
 
-def settings_creator(spec, blocking_rules=None, dialect="duckdb"):
+def settings_creator(spec, blocking_rules=None, dialect="duckdb", retain=True):
+    """retain=True: both retain_* flags on (the gamma_/bf_/tf_ columns can be read); retain=False: Splink's defaults
+    (retain_matching_columns=True, retain_intermediate_calculation_columns=False) are left untouched"""
     from splink import SettingsCreator
+    kw = {"retain_intermediate_calculation_columns": True, "retain_matching_columns": True} if retain else {}
     return SettingsCreator(
         link_type=spec["link_type"], comparisons=comparison_creators(spec, dialect),
         blocking_rules_to_generate_predictions=blocking_rules or ["1=1"],
-        probability_two_random_records_match=fl(spec["prior"]),
-        retain_intermediate_calculation_columns=True, retain_matching_columns=True)
+        probability_two_random_records_match=fl(spec["prior"]), **kw)
 
 
 def apply_setters(settings_obj, spec):
